@@ -265,3 +265,15 @@ pub(crate) fn assume_incrementable(s: &Set) {
         i += 1;
     }
 }
+
+/// Thread-clock validity: the release-fence view is a snapshot of an earlier causality of the
+/// same thread (`fence_rel` copies it; causality only grows), hence `released <= causality`.
+pub(crate) fn wf_thread_clocks(s: &Set) -> bool {
+    let mut ok = true;
+    let mut i = 0;
+    while i < s.threads.len() {
+        ok = ok && vv_le(&s.threads[i].released, &s.threads[i].causality);
+        i += 1;
+    }
+    ok
+}
